@@ -10,7 +10,7 @@ This covers every thread count and every schedule because it never mentions thre
 rely on two `nowait` loops being scheduled identically (none here)."""
 import re
 from vlib import Src, Rules, Job, ExtractError, match_close
-import units, C03, smoother
+import units, C03, C04, C08, smoother
 
 RACE_PRELUDE = r"""
 /* ---- ghost state of the race check ---- */
@@ -229,6 +229,94 @@ def jobs_for_residual(nr, nt, nsc, dirbc):
     return jobs
 
 
+# ---- grid transfer operators (Interpolation::apply*): every operator is one parallel region with two nowait loops ----------
+def jobs_for_interpolation(nr, nt, nsc_f, nsc_c):
+    rules, hashes, info = Rules("C11"), {}, {}
+    ncr, nct = (nr + 1) // 2, nt // 2
+    NF, NC = nr * nt, ncr * nct
+    files = dict(C08.FILES)
+    files.update(C08.FMG_FILE)
+
+    def pre(name, body, r):
+        if name in files:
+            body, info[name] = omp_to_ghost(body, r, "Interpolation::" + name)
+        body, k = units.wrap_subscripts(body, ["result", "x"], "RACC(%s, %s)")
+        r.log.append(("C11.subscripts_wrapped(%s)" % name, k))
+        return body
+    c = ["#define RACE_MAXN %d" % (NF + 1), RACE_PRELUDE, units.PRELUDE_R, units.POLARGRID_STRUCT, C08.LEVEL_PRELUDE,
+         "static real_t result[%d], x[%d]; static int result_size, x_size;\n" % (NF, NF)]
+    c.append(units.polargrid_instance("fineGrid", "R", rules, nr, nt, hashes))
+    c.append(units.polargrid_instance("coarseGrid", "R", rules, ncr, nct, hashes))
+    c.append("#define grid() dummy_grid_member_never_used\n")
+    c.append(C08.interpolation_unit("R", rules, hashes, files=files, pre=pre))
+    c.append("static void setup(void) {")
+    c.append(units.grid_setup_concrete("fineGrid", nr, nt, nsc_f))
+    c.append(units.grid_setup_concrete("coarseGrid", ncr, nct, nsc_c))
+    c.append("}")
+    jobs = []
+    for fn, (rel, macros, binding) in files.items():
+        to_fine = binding == "coarse_from"
+        h = ["void harness(void) {", "  setup();",
+             "  fromLevel = %s; toLevel = %s; x_size = %d; result_size = %d;" % (("lvlC", "lvlF", NC, NF) if to_fine else ("lvlF", "lvlC", NF, NC)),
+             "  for (int k = 0; k < %d; k++) { x[k] = nondet_real(); result[k] = nondet_real(); }" % NF,
+             "  Interpolation_%s(fromLevel, toLevel, result, x);" % fn,
+             "  __CPROVER_assert(race_next >= %d, \"OBL:every worksharing loop was entered\");" % ((nsc_f + nt) if to_fine else (nsc_c + nct)),
+             "  __CPROVER_assert(0, \"COVER:reached_end\");", "}"]
+        j = Job("C11.race[Interpolation::%s,nr=%d,nt=%d,nscF=%d,nscC=%d]" % (fn, nr, nt, nsc_f, nsc_c), "\n".join(c + h), "R",
+                unwind=max(NF, nr, nt) + 3, timeout=600,
+                bounded="grid shapes fixed: fine %dx%d split %d, coarse %dx%d split %d; iteration-level race check" % (nr, nt, nsc_f, ncr, nct, nsc_c),
+                functions=["Interpolation::" + fn], covers={"COVER:reached_end"}, extra=["--max-field-sensitivity-array-size", "8192"])
+        j.rules, j.hashes, j.info = rules, hashes, info
+        jobs.append(j)
+    return jobs
+
+
+# ---- assembly of the coarse direct-solver matrix (DirectSolver{Give,Take}CustomLU::buildSolverMatrix, multi-threaded branch) -----
+def jobs_for_assembly(strat, nr, nt, nsc, dirbc):
+    rules, hashes, info = Rules("C11"), {}, {}
+    N = nr * nt
+    d = C04.STRATS[strat]["dir"]
+    c = C04.solver_unit(strat, rules, hashes, nr, nt)
+    text = "\n".join(c)
+    # every access to a CSR slot (column index or value, `=` or `+=`) is a write of that slot by the current iteration
+    want = "    (m).row_start_indices_[(row)] + (nz))"
+    if text.count(want) != 1:
+        raise ExtractError("CSR_SLOT definition changed")
+    text = text.replace(want, "    RACE_SLOT((m).row_start_indices_[(row)] + (nz)))")
+    text = text.replace("/* ---- generated prelude", "#define RACE_MAXN %d\n%s\n#define RACE_SLOT(s) (race_access(matrix_id, (s), 1), (s))\n/* ---- generated prelude" % (9 * N + 1, RACE_PRELUDE), 1)
+    # the multi-threaded branch with its pragma structure as ghost statements
+    f = Src.get("src/DirectSolver/%s/buildSolverMatrix.cpp" % d).function("%s::buildSolverMatrix" % d)
+    body = f["body"]
+    i = body.find("else {", body.find("omp_get_max_threads() == 1"))
+    if i < 0:
+        raise ExtractError("parallel branch of buildSolverMatrix not found")
+    bo = body.index("{", i)
+    bc = match_close(body, bo, "{", "}")
+    par, info["omp"] = omp_to_ghost(body[bo:bc + 1], rules, "%s::buildSolverMatrix" % d)
+    from vlib import common_body_rewrites
+    par = common_body_rewrites(par, rules, "R")
+    par = re.sub(r"\bbuildSolverMatrix(Circle|Radial)Section\((\w+|\d+),\s*solver_matrix\)", r"%s_buildSolverMatrix\1Section__impl(\2)" % d, par)
+    if "solver_matrix" in par:
+        raise ExtractError("unhandled use of solver_matrix in the parallel branch")
+    h = ["static void build_parallel_region(void)\n%s\n" % par, "static void setup(void) {", units.grid_setup_concrete("grid_", nr, nt, nsc, antipodal=True)]
+    h += C03.cache_setup(N, nr, nt, 1, 1)
+    h.append("  DirBC_Interior_ = %d; result_size = rhs_size = x_size = %d; verif_omp_max_threads = 4;" % (dirbc, N))
+    h.append("}")
+    h += ["void harness(void) {", "  setup();", "  CSR_construct(%d, %d);" % (N, N),
+          "  for (int s = 0; s < %d; s++) { solver_matrix.column_indices_[s] = -1; solver_matrix.values_[s] = 0; }" % (9 * N),
+          "  build_parallel_region();",
+          "  __CPROVER_assert(race_next >= %d, \"OBL:every worksharing loop was entered\");" % (nsc + (nt if strat == "Take" else nt - nt % 3 - 2)),
+          "  __CPROVER_assert(0, \"COVER:reached_end\");", "}"]
+    j = Job("C11.race[%s::buildSolverMatrix,nr=%d,nt=%d,nsc=%d,DirBC=%d]" % (d, nr, nt, nsc, dirbc), text + "\n" + "\n".join(h), "R",
+            unwind=9 * N + 3, timeout=900,
+            bounded="grid shape fixed %dx%d split %d DirBC=%d; iteration-level race check on the CSR slots" % (nr, nt, nsc, dirbc),
+            functions=["%s::buildSolverMatrix" % d, "%s::buildSolverMatrixCircleSection" % d, "%s::buildSolverMatrixRadialSection" % d],
+            covers={"COVER:reached_end"}, split=r"^OBL:|^COVER:|race map index", split_chunk=1, split_timeout=600, skip_batch=True,
+            extra=["--max-field-sensitivity-array-size", "8192"])
+    j.rules, j.hashes, j.info = rules, hashes, info
+    return [j]
+
+
 REGIONS = [("SmootherGive", "smoothingForLoop"), ("SmootherTake", "smoothing"),
            ("ExtrapolatedSmootherGive", "extrapolatedSmoothingForLoop"), ("ExtrapolatedSmootherTake", "extrapolatedSmoothing")]
 
@@ -243,6 +331,14 @@ def build_jobs(tier, seed):
             jobs += jobs_for_smoother(cls, sweep, nr, nt, nsc, 0)
     for (nr, nt, nsc) in res_shapes:
         jobs += jobs_for_residual(nr, nt, nsc, 0)
+    int_shapes = [(5, 4, 2, 1), (7, 6, 3, 1), (5, 6, 0, 0), (5, 4, 5, 3)] if tier == "quick" else [(5, 4, 2, 1), (7, 6, 3, 1), (5, 6, 0, 0), (5, 4, 5, 3), (9, 8, 4, 2), (7, 12, 2, 1), (9, 4, 7, 4)]
+    for sh in int_shapes:
+        jobs += jobs_for_interpolation(*sh)
+    asm_shapes = [(5, 6, 2), (5, 4, 3), (6, 6, 0), (5, 8, 5)] if tier == "quick" else [(5, 6, 2), (5, 4, 3), (6, 6, 0), (5, 8, 5), (7, 6, 3), (5, 10, 2), (6, 8, 0), (5, 12, 1)]
+    for (nr, nt, nsc) in asm_shapes:
+        for strat in ("Take", "Give"):
+            for dirbc in ((0, 1) if (nr, nt, nsc) == asm_shapes[0] else (0,)):
+                jobs += jobs_for_assembly(strat, nr, nt, nsc, dirbc)
     return jobs
 
 
@@ -254,12 +350,16 @@ EXPLANATION = (
     "for the vectors x / temp / result, the right-hand-side ranges and the scratch storage of the line solves (shared iff declared "
     "outside the region). Regions covered: ResidualGive/ResidualTake::computeResidual, SmootherGive::smoothingForLoop, "
     "SmootherTake::smoothing, ExtrapolatedSmootherGive::extrapolatedSmoothingForLoop, ExtrapolatedSmootherTake::extrapolatedSmoothing "
-    "(stride-2/4 phases, nowait overlaps, 3-colour remainder rule), on concrete shapes covering circle counts mod 2,3,4 and ntheta mod "
-    "3,4. Valid for every thread count and schedule (never mentions threads). NOT covered (reported, not claimed race-free): matrix "
-    "assembly regions (buildAscMatrices, buildSolverMatrix), LevelCache constructors, interpolation, rhs build, vector kernels, the "
-    "task-based variants (unused), the OpenMP runtime itself. Bounded in grid shape.")
-NOT_COVERED = ["buildAscMatrices (4 smoothers)", "DirectSolver*::buildSolverMatrix", "LevelCache constructors", "Interpolation::apply*",
-               "build_rhs_f / discretize_rhs_f", "vector_operations.h kernels (reduction clauses trusted)", "task_parallelization.cpp variants (not called)"]
+    "(stride-2/4 phases, nowait overlaps, 3-colour remainder rule), the six grid-transfer operators Interpolation::apply{Prolongation, "
+    "Restriction, ExtrapolatedProlongation, ExtrapolatedRestriction, Injection, FMGInterpolation} (vectors result / x), and the "
+    "multi-threaded branch of DirectSolver{Give,Take}CustomLU::buildSolverMatrix (every CSR slot access is a write of that slot; F15 "
+    "recorded for the radial-only grid), on concrete shapes covering circle counts mod 2,3,4 and ntheta mod "
+    "3,4. Valid for every thread count and schedule (never mentions threads). NOT covered (reported, not claimed race-free): smoother "
+    "matrix assembly (buildAscMatrices), LevelCache constructors, rhs build, vector kernels, the value-zeroing loop of buildSolverMatrix, "
+    "the task-based variants (unused), the MUMPS/COO solver variants (not built), the OpenMP runtime itself. Bounded in grid shape.")
+NOT_COVERED = ["buildAscMatrices (4 smoothers)", "LevelCache constructors", "build_rhs_f / discretize_rhs_f",
+               "vector_operations.h kernels (reduction clauses trusted)", "task_parallelization.cpp variants (not called)",
+               "DirectSolverGive/DirectSolverTake (MUMPS / COO variants, not built)", "applySymmetryShift (MUMPS only)"]
 
 
 def run(tier, seed, work):
